@@ -40,6 +40,7 @@ type Solver struct {
 	timeoutMs int
 	log       io.Writer
 	dead      bool
+	lines     chan string
 }
 
 func solverArgv(kind string, timeoutMs int) []string {
@@ -70,6 +71,19 @@ func NewSolver(kind string, timeoutMs int) (*Solver, error) {
 		return nil, err
 	}
 	s := &Solver{name: kind, cmd: cmd, in: in, out: bufio.NewReaderSize(out, 1<<16), defined: map[int]bool{}, declVar: map[string]bool{}, timeoutMs: timeoutMs}
+	s.lines = make(chan string, 64)
+	go func(r *bufio.Reader, ch chan string) {
+		defer close(ch)
+		for {
+			l, err := r.ReadString('\n')
+			if l != "" {
+				ch <- l
+			}
+			if err != nil {
+				return
+			}
+		}
+	}(s.out, s.lines)
 	if kind == "cvc5" {
 		s.send("(set-logic QF_BV)\n")
 	}
@@ -91,7 +105,19 @@ func (s *Solver) send(str string) {
 	if s.log != nil {
 		io.WriteString(s.log, str)
 	}
-	io.WriteString(s.in, str)
+	if len(str) < 32768 {
+		io.WriteString(s.in, str)
+		return
+	}
+	// large batches can block on a solver that stopped reading: write with a hard timeout
+	done := make(chan struct{})
+	go func() { io.WriteString(s.in, str); close(done) }()
+	select {
+	case <-done:
+	case <-time.After(time.Duration(s.timeoutMs)*time.Millisecond + 20*time.Second):
+		s.cmd.Process.Kill()
+		<-done
+	}
 }
 
 func (s *Solver) define(sb *strings.Builder, t *Term) {
@@ -203,18 +229,29 @@ func (s *Solver) Check(asserts []*Term, vars []*Term) (Result, Model, error) {
 	return res, model, nil
 }
 
+func (s *Solver) rawLine() (string, error) {
+	select {
+	case l, ok := <-s.lines:
+		if !ok {
+			return "", fmt.Errorf("solver %s died", s.name)
+		}
+		return l, nil
+	case <-time.After(time.Duration(s.timeoutMs)*time.Millisecond + 3*time.Second):
+		// the soft timeout was not honoured: hard kill; the caller restarts the solver
+		s.cmd.Process.Kill()
+		return "", fmt.Errorf("solver %s exceeded its hard timeout", s.name)
+	}
+}
+
 func (s *Solver) readLine() (string, error) {
 	for {
-		l, err := s.out.ReadString('\n')
+		l, err := s.rawLine()
 		if err != nil {
-			return "", fmt.Errorf("solver %s died: %v", s.name, err)
+			return "", err
 		}
 		l = strings.TrimSpace(l)
 		if l == "" {
 			continue
-		}
-		if strings.HasPrefix(l, "(error") {
-			return l, nil
 		}
 		return l, nil
 	}
@@ -227,24 +264,27 @@ func (s *Solver) readSexp() (string, error) {
 	started := false
 	inBar := false
 	for {
-		c, err := s.out.ReadByte()
+		l, err := s.rawLine()
 		if err != nil {
 			return "", err
 		}
-		sb.WriteByte(c)
-		if c == '|' {
-			inBar = !inBar
-		}
-		if inBar {
-			continue
-		}
-		if c == '(' {
-			depth++
-			started = true
-		} else if c == ')' {
-			depth--
-			if started && depth == 0 {
-				return sb.String(), nil
+		for i := 0; i < len(l); i++ {
+			c := l[i]
+			sb.WriteByte(c)
+			if c == '|' {
+				inBar = !inBar
+			}
+			if inBar {
+				continue
+			}
+			if c == '(' {
+				depth++
+				started = true
+			} else if c == ')' {
+				depth--
+				if started && depth == 0 {
+					return sb.String(), nil
+				}
 			}
 		}
 	}
